@@ -154,4 +154,51 @@ Proof.
   - eapply from_sql_shape; eassumption.
   - eapply where_sql_shape; eassumption.
 Qed.
+(* DELETE: the head DELETE, then FROM, index hints, joins, PREWHERE, WHERE, GROUP BY, HAVING, ORDER BY, row limit, FOR UPDATE - the one tail order *)
+Theorem delete_shape : forall p s p',
+  has_upd q = false -> q_delete_from q = true -> q_on_conflict q = false ->
+  generic_with R q c false false p = Ok (s, p') ->
+  exists sf sfi sui sj spw sw sg sh so sp pa pb,
+    s = L "DELETE" ++ sf ++ sfi ++ sui ++ sj ++ spw ++ sw ++ sg ++ sh ++ so ++ sp ++ for_update_sql q c /\
+    kw_or_empty (L " FROM ") sf /\ kw_or_empty (L " FORCE INDEX (") sfi /\ kw_or_empty (L " USE INDEX (") sui /\ kw_or_empty [32] sj /\
+    kw_or_empty (L " PREWHERE ") spw /\ kw_or_empty (L " WHERE ") sw /\ kw_or_empty (L " GROUP BY ") sg /\ kw_or_empty (L " HAVING ") sh /\
+    kw_or_empty (L " ORDER BY ") so /\ pagination R q c pa = Ok (sp, pb).
+Proof.
+  intros p s p' Hu Hd Hoc H. unfold generic_with in H. rewrite Hu, Hd in H.
+  exact (tail_shape R q c (L "DELETE") p s p' Hoc H).
+Qed.
+
+(* INSERT .. VALUES: WITH, INSERT INTO <table> (or REPLACE INTO / INSERT IGNORE INTO), the column list, VALUES (rows), the upsert part - in this order *)
+Definition insert_kw (k : str) : Prop := k = L "REPLACE INTO " \/ k = L "INSERT IGNORE INTO " \/ k = L "INSERT INTO ".
+Theorem insert_values_shape : forall p s p',
+  has_upd q = false -> q_delete_from q = false -> q_select_into q = false -> has_ins q = true -> has_vals q = true ->
+  generic_with R q c false false p = Ok (s, p') ->
+  exists sw kw st sc rows s1 s2,
+    s = sw ++ kw ++ st ++ sc ++ L " VALUES (" ++ rows ++ L ")" ++ s1 ++ s2 /\
+    kw_or_empty (L "WITH ") sw /\ insert_kw kw /\ kw_or_empty (L " (") sc /\ (q_on_conflict q = false -> s1 = [] /\ s2 = []).
+Proof.
+  intros p s p' Hu Hd Hsi Hi Hv H. unfold generic_with in H. rewrite Hu, Hd, Hsi, Hi, Hv in H. cbn [negb andb] in H. cbv zeta in H.
+  destruct (with_sql R q c p) as [[sw p1]|] eqn:E1; [|discriminate].
+  destruct (table_sql R c p1 (q_insert_table q)) as [[st p2]|] eqn:E2; [|discriminate].
+  match type of H with (match ?X with Ok _ => _ | Exn _ => _ end) = _ => destruct X as [[sc p3]|] eqn:E3; [|discriminate] end.
+  match type of H with (match ?X with Ok _ => _ | Exn _ => _ end) = _ => destruct X as [[sr p4]|] eqn:E4; [|discriminate] end.
+  set (kw := if q_replace_ q then L "REPLACE INTO "
+             else match q_cls q with BMySQL => if q_do_nothing q then L "INSERT IGNORE INTO " else L "INSERT INTO " | _ => L "INSERT INTO " end) in *.
+  assert (Hk : insert_kw kw).
+  { unfold kw, insert_kw. destruct (q_replace_ q); [left; reflexivity|]. destruct (q_cls q); try (right; right; reflexivity).
+    destruct (q_do_nothing q); [right; left|right; right]; reflexivity. }
+  destruct (q_on_conflict q) eqn:Eoc.
+  - destruct (on_conflict_sql R q c p4) as [[s1 p5]|] eqn:E5; [|discriminate].
+    destruct (on_conflict_action_sql R q c p5) as [[s2 p6]|] eqn:E6; [|discriminate].
+    inversion H; subst; clear H.
+    exists sw, kw, st, sc, (join (L "),(") sr), s1, s2. repeat split; try assumption; try discriminate.
+    + repeat (progress (cbn [app]; rewrite <- ?app_assoc; rewrite ?app_nil_r)). reflexivity.
+    + eapply with_sql_shape; eassumption.
+    + clear -E3. shape_tac E3.
+  - inversion H; subst; clear H.
+    exists sw, kw, st, sc, (join (L "),(") sr), [], []. repeat split; try assumption; try reflexivity.
+    + repeat (progress (cbn [app]; rewrite <- ?app_assoc; rewrite ?app_nil_r)). reflexivity.
+    + eapply with_sql_shape; eassumption.
+    + clear -E3. shape_tac E3.
+Qed.
 End OtherKinds.
